@@ -44,10 +44,37 @@ pub fn vec_first(v: &Vec<TL>) -> (r: Option<&TL>) ensures v@.len() == 0 ==> r is
 pub open spec fn mixed_mixed(t1: Seq<TL>, t2: Seq<TL>, f: Flags) -> bool { t1.len() == t2.len() && forall|j: int| 0 <= j < t1.len() && j < t2.len() ==> compat(t1[j], t2[j], f) }
 // fixed-shape literal where `[T...]` is wanted (or the reverse): EVERY slot must be compatible with T
 pub open spec fn mixed_open(t1: Seq<TL>, t2: TL, f: Flags) -> bool { forall|j: int| 0 <= j < t1.len() ==> compat(t2, t1[j], f) }
+// `[T...]` supplied where a fixed-shape list is wanted: every slot must ACCEPT the element type (expected side = the slot)
+pub open spec fn open_into_mixed(t1: Seq<TL>, t2: TL, f: Flags) -> bool { forall|j: int| 0 <= j < t1.len() ==> compat(t1[j], t2, f) }
 // a fixed-shape list may be used as `[T...]` only if every adjacent pair of slots is compatible (so all slots are, by transitivity, T = slot 0)
 pub open spec fn adj(t: Seq<TL>, j: int, f: Flags) -> bool { compat(t[j], t[j + 1], f) }
 pub open spec fn chain(t: Seq<TL>, f: Flags) -> bool { forall|j: int| 0 <= j && j + 1 < t.len() ==> #[trigger] adj(t, j, f) }
 """
+
+
+def for_slots(label, t2_expr, flags_expr):
+    """R2: `for ty in t1 { if !A.eq_complex(B, F) { return false; } }` -> indexed while; the invariant is read off the loop's own test (which of
+    the slot `ty` and the element type `t2` is the expected side): the arm's postcondition, not the invariant, says which it has to be"""
+    from vlib.pattern import Pat
+
+    def repl(b):
+        v, x, body = text(b["v"]), text(b["x"]), b["body"]
+        k = f"verif_k_{label}_{v}"
+        m = None
+        pp = Pat("! $a . eq_complex ( $b , $$f )")
+        for i in range(len(body)):
+            r = pp.match_at(body, i)
+            if r:
+                m = r[1]; break
+        if m is None:
+            return None
+        side = lambda t: f"{v}@[j]" if text(t) == x else (t2_expr if text(t) == "t2" else None)
+        a, bb = side(m["a"]), side(m["b"])
+        if a is None or bb is None:
+            return None
+        inv = f"invariant {k} <= {v}.len(), forall|j: int| 0 <= j < {k} ==> compat({a}, {bb}, {flags_expr}) decreases {v}.len() - {k}"
+        return [f"let mut {k} : usize = 0 ; while {k} < {v} . len ( )", G(inv), "{", f"let {x} = & {v} [ {k} ] ; {k} += 1 ;", *body, "}"]
+    return Rule("R2", "for $x in $v { $$body }", repl, why="for over &Vec -> indexed while (iteration order of slice::Iter); invariant read off the loop's test")
 
 
 def common_rules():
@@ -64,7 +91,8 @@ def build(repo):
     arms = {
         "mm": "( Self :: List ( ListType :: Mixed ( t1 ) ) , Self :: List ( ListType :: Mixed ( t2 ) ) , _ )",
         "oo": "( Self :: List ( ListType :: Open ( t1 ) ) , Self :: List ( ListType :: Open ( t2 ) ) , _ )",
-        "mo": "( Self :: List ( ListType :: Mixed ( t1 ) ) , Self :: List ( ListType :: Open ( t2 ) ) , _ ) | ( Self :: List ( ListType :: Open ( t2 ) ) , Self :: List ( ListType :: Mixed ( t1 ) ) , _ )",
+        "mo": "( Self :: List ( ListType :: Mixed ( t1 ) ) , Self :: List ( ListType :: Open ( t2 ) ) , _ )",
+        "om": "( Self :: List ( ListType :: Open ( t2 ) ) , Self :: List ( ListType :: Mixed ( t1 ) ) , _ )",
     }
     flag_rules = [
         Rule("R1", "let flags = Box :: new ( flags . deref ( ) ) ;", "", why="re-boxing of the flags reference (lifetime plumbing)"),
@@ -75,8 +103,7 @@ def build(repo):
             arm = extract_match_arm(feq["body"], pat)
         except Exception as e:
             raise Undecided(f"eq_complex: list arm not found ({k}): {e}")
-        inv = "invariant $K <= $V.len(), forall|j: int| 0 <= j < $K ==> compat(*t2, $V@[j], *flags) decreases $V.len() - $K"
-        b = translate(arm["body"], common_rules() + [for_in_vec(k, inv)] + flag_rules, log, f"eq_complex arm {k}")
+        b = translate(arm["body"], common_rules() + [for_slots(k, "*t2", "*flags")] + flag_rules, log, f"eq_complex arm {k}")
         check_closed(b, f"eq_complex arm {k}")
         frag[k] = render(b, 1)
 
@@ -84,9 +111,8 @@ def build(repo):
     fle = src.fn(LIST, "eq", "impl PartialEq for ListType")
     el = lambda a, j: f"compat(**t2, {a}@[{j}], classless())"
     pr = lambda a, ja, b_, jb: f"compat({a}@[{ja}], {b_}@[{jb}], classless())"
-    inv = "invariant $K <= $V.len(), forall|j: int| 0 <= j < $K ==> compat(**t2, $V@[j], classless()) decreases $V.len() - $K"
     ble = translate(fle["body"], iter_idiom_rules("e", el, pr) + [
-        for_in_vec("e", inv),
+        for_slots("e", "**t2", "classless()"),
         Rule("R1", "use ListType as E ;", "", why="local alias"),
         Rule("R1", "E :: $v", "ListType :: $v", why="local alias"),
         Rule("R6", "let typecheck_flags : TypecheckFlags < & ClassType > = TypecheckFlags :: classless ( ) ;", "let typecheck_flags = flags_classless ( ) ;", why="TypecheckFlags::classless()"),
@@ -146,10 +172,19 @@ pub fn eq_complex_arm_open_open(t1: &Box<TL>, t2: &Box<TL>, flags: &Flags) -> (r
 }}
 
 //@ OBL C02.compat.list.mixed-open
-// `x: [int...] = [10, "twenty", 30]` must be rejected: accepted exactly when EVERY slot is compatible with the open element type
+// `x: [int...] = [10, "twenty", 30]` must be rejected: a fixed-shape list fits `[T...]` exactly when T accepts EVERY slot
 #[verifier::loop_isolation(false)]
 pub fn eq_complex_arm_mixed_open(t1: &Vec<TL>, t2: &TL, flags: &Flags) -> (r: bool)
     ensures r == mixed_open(t1@, *t2, *flags)
+{{
+{frag['om']}
+}}
+
+//@ OBL C02.compat.list.open-mixed
+// the other way round -- `[T...]` supplied where `[A, B]` is expected (D82): exactly when every slot ACCEPTS T (`[int?...]` does not fit `[int, int]`)
+#[verifier::loop_isolation(false)]
+pub fn eq_complex_arm_open_mixed(t1: &Vec<TL>, t2: &TL, flags: &Flags) -> (r: bool)
+    ensures r == open_into_mixed(t1@, *t2, *flags)
 {{
 {frag['mo']}
 }}
@@ -161,7 +196,7 @@ impl ListType {{
         ensures
             (self is Mixed && other is Mixed) ==> r == mixed_mixed(self->Mixed_0@, other->Mixed_0@, classless()),
             (self is Open && other is Open) ==> r == compat(*self->Open_0, *other->Open_0, classless()),
-            (self is Mixed && other is Open) ==> r == mixed_open(self->Mixed_0@, *other->Open_0, classless()),
+            (self is Mixed && other is Open) ==> r == open_into_mixed(self->Mixed_0@, *other->Open_0, classless()),
             (self is Open && other is Mixed) ==> r == mixed_open(other->Mixed_0@, *self->Open_0, classless()),
     {{
 {render(ble, 2)}
@@ -201,7 +236,8 @@ fn main() {{}}
         Obl("C02.compat.function.eq", ["C02", "C03"], fn="FunctionType::eq", desc="PartialEq for FunctionType: same arity, return types agree for signature checking, every parameter pair compatible under signature_check flags"),
         Obl("C02.compat.list.mixed-mixed", ["C02", "C03"], fn="eq_complex_arm_mixed_mixed", desc="eq_complex, [A, B] vs [C, D]: compatible exactly when both have the same number of slots and every slot is"),
         Obl("C02.compat.list.open-open", ["C02", "C03"], fn="eq_complex_arm_open_open", desc="eq_complex, [T...] vs [U...]: compatible exactly when T and U are"),
-        Obl("C02.compat.list.mixed-open", ["C02", "C03"], fn="eq_complex_arm_mixed_open", desc="eq_complex, fixed-shape list vs [T...]: compatible exactly when EVERY slot is compatible with T"),
+        Obl("C02.compat.list.mixed-open", ["C02", "C03"], fn="eq_complex_arm_mixed_open", desc="eq_complex, [T...] expected, fixed-shape list supplied: compatible exactly when T accepts EVERY slot"),
+        Obl("C02.compat.list.open-mixed", ["C02", "C03"], fn="eq_complex_arm_open_mixed", desc="eq_complex, fixed-shape list expected, [T...] supplied: compatible exactly when every slot ACCEPTS T (D82: the test was mirrored)"),
         Obl("C02.compat.listtype.eq", ["C02", "C03"], fn="ListType::eq", desc="PartialEq for ListType (the `lhs == rhs` shortcut in front of eq_complex): same three shapes, classless flags"),
         Obl("C02.coerce.open", ["C02", "C16"], fn="ListType::try_coerce_to_open", desc="try_coerce_to_open: a fixed-shape list is treated as [T...] only if it is non-empty and EVERY adjacent pair of slots is compatible; T is slot 0"),
     ]
